@@ -200,20 +200,25 @@ Fixpoint keys_distinct (l : list value) : bool :=
 
 Definition xml_arity (k : xkind) : nat := match k with KDate => 3 | KTime => 4 | KDateTime => 7 end.
 
+(* module names are dotted identifiers *)
+Definition nospace (s : str) : bool := forallb (fun c => negb (N.eqb c 32)) s.
+
 Definition wf_local (W : world) (v : value) : bool :=
   match v with
   | VDecimal s => match dec_parse s with Some _ => true | None => false end
   | VFloat bits => (0 <=? bits) && (bits <? 2 ^ 64) && (fl_isfinite bits || (bits =? fl_pos_inf) || (bits =? fl_neg_inf) || (bits =? fl_nan))
   | VXml k args _ => Nat.eqb (length args) (xml_arity k)
-  | VEnum c m => enum_has W c m && match lib_kind c with None => true | Some _ => false end
+  | VEnum c m => enum_has W c m && match lib_kind c with None => true | Some _ => false end && nospace (fst c)
   | VDict kv => forallb scalar_key (map fst kv) && keys_distinct (map fst kv)
   | VObj c fs =>
       match find_data W c with
       | Some fds =>
           list_eqb str_eqb (map fst fs) (map f_name fds)
           && names_nodup (map f_name fds)
+          && forallb (fun fd => f_init fd || match default_of fd with Some _ => true | None => false end) fds
           && match lib_kind c with None => true | Some _ => false end
           && match snd c with [] => false | _ => true end
+          && nospace (fst c)
       | None => false
       end
   | _ => true
